@@ -391,7 +391,7 @@ func vOpsString(ops []vLabOp) string {
 }
 
 type vLabCase struct {
-	Lab string    `json:"lab"`
+	Lab string   `json:"lab"`
 	Ops []vLabOp `json:"ops"`
 }
 
